@@ -49,6 +49,7 @@ POPS = {
     "concat": (2, lambda L, t, a: L.sg.concat([t[0], t[1]], a["dim"]), lambda x, a: np.concatenate([x[0], x[1]], axis=a["dim"])),
     "concat_self": (1, lambda L, t, a: L.sg.concat([t[0], t[0]], a["dim"]), lambda x, a: np.concatenate([x[0], x[0]], axis=a["dim"])),
     "stack": (2, lambda L, t, a: L.sg.stack([t[0], t[1]], a["dim"]), lambda x, a: np.stack([x[0], x[1]], axis=a["dim"])),
+    "concat_list_reused": (2, lambda L, t, a: _concat_then_mutate(L, t, a), lambda x, a: np.concatenate([x[0], x[1]], axis=a["dim"])),
     "unbind": (1, lambda L, t, a: L.sg.unbind(t[0], a["dim"]), lambda x, a: tuple(np.moveaxis(x[0], a["dim"], 0))),
     "softmax": (1, lambda L, t, a: L.sg.softmax(t[0], a["dim"]), lambda x, a: R.softmax(x[0], a["dim"])),
     "log_softmax": (1, lambda L, t, a: L.sg.log_softmax(t[0], a["dim"]), lambda x, a: R.log_softmax(x[0], a["dim"])),
@@ -72,6 +73,13 @@ POPS = {
     "max": (1, lambda L, t, a: t[0].max(a["dim"], a["keepdims"]), lambda x, a: np.max(x[0], axis=a["dim"], keepdims=a["keepdims"])),
 }
 KINKED = {"relu", "max"}
+
+
+def _concat_then_mutate(L, t, a):
+    lst = [t[0], t[1]]
+    out = L.sg.concat(lst, a["dim"])
+    lst.reverse(); lst.pop()           # the caller goes on using its list (sliding windows, buffers)
+    return out
 
 
 def _const_w(a, cin):
@@ -260,7 +268,7 @@ def generate(rng, n_instr, n_leaves, allow_kinks=False, big=False, leaves=None, 
                     continue
                 L_ = x[0].shape[0]
                 args["idx"] = [int(v) for v in rng.integers(-L_, L_, int(rng.integers(2, 5)))]
-            elif op in ("concat", "concat_self", "softmax", "log_softmax", "unbind"):
+            elif op in ("concat", "concat_self", "softmax", "log_softmax", "unbind", "concat_list_reused"):
                 if r == 0:
                     continue
                 args["dim"] = int(rng.integers(-r, r))
